@@ -35,7 +35,18 @@ def run(chk):
         if forced:
             cfg["qtype"] = rng.choice(rl["types"])          # a type the path lets through, forced with -T
             cfg["downenc"] = rng.choice(["T", "S", "U", "V"])
-        jobs.append((chk.seed * 3000 + k, cfg, rl, None, 4, False, "forced" if forced else "auto"))
+        scen = "forced" if forced else "auto"
+        if k % 8 == 5:
+            # a transparent path with a binding answer-size limit: the wide upstream codecs get selected, the probed fragment size is then used at
+            # full load in both directions
+            rl.update({"case": "keep", "hi": "clean", "punct": "keep", "types": PROBE_ORDER[rng.choice([0, 2, 3]):], "limit": rng.choice([1232, 512, 1232])})
+            scen = "fullsize"
+        if k % 16 == 9:
+            # the user slot of a client that negotiated wide codecs on a transparent path is re-used, after it expired, by a client behind `rl`
+            cfg["second_relay"] = dict(rl)
+            rl = {}
+            scen = "reuse"
+        jobs.append((chk.seed * 3000 + k, cfg, rl, None, 4, False, scen))
     res = W.run_worlds(jobs)
     bad, ok_hs, delivered = 0, 0, 0
     for r in res:
@@ -44,7 +55,7 @@ def run(chk):
             bad += 1
             continue
         if r["handshake"] != ("ret", 0):
-            if r["scenario"] == "auto":
+            if r["scenario"] in ("auto", "fullsize", "reuse"):
                 chk.violation("C11 fails on the implementation: autodetecting handshake failed (%s) through a relay that passes Base32 names and 512-byte answers for the types %s (%s)"
                               % (r["handshake"], r["relay"], r["cfg"]), r["log"], key="c11:fallback")
                 bad += 1
@@ -57,6 +68,9 @@ def run(chk):
         # 24 bytes per query even at the smallest hostname limit)
         must_c = [f for _, f in r["accepted_c"] if len(f) + 1 <= 12 * 24]
         must_s = [f for _, f in r["accepted_s"] if len(f) + 1 <= 12 * max(1, min(r.get("fs", 100), 4094))]
+        if r["scenario"] == "fullsize":
+            must_c = [f for _, f in r["accepted_c"] if W.fragments_needed(f, r, True) <= 12]
+            must_s = [f for _, f in r["accepted_s"] if W.fragments_needed(f, r, False) <= 12]
         why = None
         if any(f not in sent_c for f in got_s) or any(f not in sent_s for f in got_c):
             why = "a packet arrived corrupted (not equal to any offered packet)"
@@ -107,6 +121,7 @@ def run(chk):
                               ["# correspondence C11L.upencAutodetect/downencAutodetect vs client.c handshake no longer checks", o], no_input=True)
     chk.notes["negotiation_predictions_compared"] = npred
     W.report_client_model(chk, res, "C11")
+    W.report_server_model(chk, res, "C11")
     if not chk.violations and not proof_ok:
         chk.violation("proof obligation no longer checks: " + chk.proof_detail,
                       ["# theorems of Props/C11.lean: " + ", ".join(vlib.prop_theorems("C11")), "# " + chk.proof_detail.replace("\n", "\n# ")], no_input=True)
